@@ -9,7 +9,7 @@
 From Coq Require Import ZArith List.
 Import ListNotations.
 From Mds Require Import Mlink.MlinkModel Mlink.MlinkSpec Mlink.MlinkBasics Mlink.MlinkChain
-  Mlink.MlinkProofs Mlink.MlinkQueueProofs Stack.StackModel Stack.StackProofs.
+  Mlink.MlinkProofs Mlink.MlinkQueueProofs Mlink.MlinkSpecFacts Stack.StackModel Stack.StackProofs.
 
 (* ---- stack.Stack ---- *)
 
@@ -41,6 +41,20 @@ Example C10_list_refinement_ex :
     [OEnd; OAdd 0 [1;2;3]%Z; OAt 1; OAt 2; ORemove 1; OGet 1; OGet 2; OTruncate 1; OEnd; OAdd 3 [7]%Z; OEach (fun _ => true); OLen]
   = [RUnit; RUnit; RUnit; RUnit; RVal 2%Z; RVal 3%Z; RPanic InvalidCursor; RUnit; RUnit; RUnit; RList [1;7]%Z; RInt 2%Z].
 Proof. vm_compute. reflexivity. Qed.
+
+(* The reference's Add ("a shorthand for Push followed by Next", folded over the values) has the
+   closed form of the documentation picture: through a cursor at index i <= len the values appear
+   at i.. in order, the rest keeps its order, and the cursor ends just after them. *)
+Theorem C10_add_picture : forall (T : Type) (vs l : list T) (ps : list cpos) (k i : nat),
+  nth_error ps k = Some (At i) -> i <= length l ->
+  fst (fst (aadd T k vs (l, ps))) = firstn i l ++ vs ++ skipn i l /\
+  nth_error (snd (fst (aadd T k vs (l, ps)))) k = Some (At (i + length vs)) /\
+  snd (aadd T k vs (l, ps)) = RUnit.
+Proof. exact aadd_picture. Qed.
+Print Assumptions C10_add_picture.
+
+Example C10_add_picture_ex : nth_error [At 0; At 1] 1 = Some (At 1) /\ 1 <= length [1;2;3]%Z.
+Proof. split; [reflexivity|cbn; auto]. Qed.
 
 (* Invariant of every reachable state, tied to the reference state [R (heap, preds) (list, positions)]:
    there is a duplicate-free chain ch = 0 :: c from the sentinel to nil such that every cell of
